@@ -159,6 +159,12 @@ func main() {
 					if is.Name == nil {
 						repl = "ioutil " + repl
 					}
+				case `"path/filepath"`:
+					// filepath.Abs consults the process's working directory
+					repl = `"verifsim/simos/simfilepath"`
+					if is.Name == nil {
+						repl = "filepath " + repl
+					}
 				}
 				if repl != "" {
 					add(is.Path.Pos(), len(is.Path.Value), repl)
